@@ -89,38 +89,72 @@ func (w *world) history(steps int, keyChanging bool) {
 					}
 				}
 			}
-		case choice == 7: // remove the last PDR with its FAR / QER when it was added by a modification
+		case choice == 7: // remove one PDR (any position, also several in one message) with the FAR / QER only it uses
 			n := len(s.pdrs)
 			if n < 3 {
 				continue
 			}
-			p := s.pdrs[n-1]
-			m := modReq{rp: []uint32{uint32(p.ID)}}
-			fi, qi := -1, -1
-			for i, f := range s.fars {
-				if f.ID == p.Far && p.Far >= 3 {
-					fi = i
+			var m modReq
+			drop := map[int]bool{}
+			for k := 0; k < 1+r.Intn(2); k++ {
+				drop[1+r.Intn(n-1)] = true
+			}
+			usedFar, usedQer := map[uint32]int{}, map[uint32]int{}
+			for i, p := range s.pdrs {
+				if !drop[i] {
+					usedFar[p.Far]++
+					for _, q := range p.Qers {
+						usedQer[q]++
+					}
 				}
 			}
-			for i, q := range s.qers {
-				if q.ID == uint32(p.ID) {
-					qi = i
+			dropFar, dropQer := map[uint32]bool{}, map[uint32]bool{}
+			for i, p := range s.pdrs {
+				if !drop[i] {
+					continue
 				}
-			}
-			if fi >= 0 {
-				m.rf = []uint32{s.fars[fi].ID}
-			}
-			if qi >= 0 {
-				m.rq = []uint32{s.qers[qi].ID}
+				m.rp = append(m.rp, uint32(p.ID))
+				if usedFar[p.Far] == 0 && !dropFar[p.Far] {
+					for _, f := range s.fars {
+						if f.ID == p.Far {
+							dropFar[p.Far] = true
+							m.rf = append(m.rf, f.ID)
+						}
+					}
+				}
+				for _, q := range p.Qers {
+					if usedQer[q] == 0 && !dropQer[q] {
+						for _, x := range s.qers {
+							if x.ID == q {
+								dropQer[q] = true
+								m.rq = append(m.rq, q)
+							}
+						}
+					}
+				}
 			}
 			if w.mod(s.a, s.up, m, "remove").Cause == 1 {
-				s.pdrs = s.pdrs[:n-1]
-				if fi >= 0 {
-					s.fars = append(s.fars[:fi], s.fars[fi+1:]...)
+				var np []sysh.PdrIE
+				for i, p := range s.pdrs {
+					if !drop[i] {
+						np = append(np, p)
+					}
 				}
-				if qi >= 0 {
-					s.qers = append(s.qers[:qi], s.qers[qi+1:]...)
+				s.pdrs = np
+				var nf []sysh.FarIE
+				for _, f := range s.fars {
+					if !dropFar[f.ID] {
+						nf = append(nf, f)
+					}
 				}
+				s.fars = nf
+				var nq []sysh.QerIE
+				for _, q := range s.qers {
+					if !dropQer[q.ID] {
+						nq = append(nq, q)
+					}
+				}
+				s.qers = nq
 			}
 		case choice == 8: // requests that must be rejected and write nothing
 			switch r.Intn(3) {
